@@ -675,7 +675,10 @@ class Special(Graph):
 PROP = Property(
     id="C11",
     title="Key joins propagate selections by key membership, in all four join shapes",
-    theorems=[],
+    theorems=["C11.join_terminates", "C11.join_terminates_flags", "C11.join_first_path", "C11.join_incompatible_iff",
+              "C11.join_1_1", "C11.join_1_n", "C11.join_n_1", "C11.join_n_n", "C11.enc_injective", "C11.stripZ_injective",
+              "C11.bytes_eq_iff_tuple_eq", "C11.join_chain", "C11.join_view", "C11.impl_eq_spec", "C11.join_correct",
+              "C11.nn_dtype_mismatch", "C11.nn_dtype_false_positive", "C11.nn_string_width_mismatch", "C11.nn_float_specials"],
     families=[CastV(), EqV(), Pair(), Graph(), Special()],
     trusted_base=["numpy promotion (np.result_type), astype, item byte layout and == / np.isin are modelled (L0) and validated exhaustively on the generated alphabets by the castv / eqv families",
                   "a view is represented on the Lean side by the flat positions numpy takes for it (np.arange(n).reshape(shape)[view])"],
